@@ -52,8 +52,9 @@ pub enum Rec {
     Msg { num: u32, len: Len, lpad: u8, fields: Vec<Rec> },
     /// packed varints; the last `cut` payload bytes are dropped (ends mid-varint)
     PackedVar { num: u32, len: Len, elems: Vec<V>, cut: u8 },
-    /// packed fixed-width values plus `extra` stray bytes
-    PackedFix { num: u32, len: Len, wide: bool, n: u8, extra: u8 },
+    /// packed fixed-width values followed by `stray` bytes (length then not a
+    /// multiple of the element size unless stray.len() is)
+    PackedFix { num: u32, len: Len, wide: bool, n: u8, stray: Vec<u8> },
     /// wire types 3 (start group) / 4 (end group)
     Group { num: u32, end: bool },
     /// wire types 6 / 7
@@ -115,15 +116,13 @@ impl Rec {
                 p.truncate(keep);
                 put_len_rec(out, *num, len, 0, &p);
             }
-            Rec::PackedFix { num, len, wide, n, extra } => {
+            Rec::PackedFix { num, len, wide, n, stray } => {
                 let w = if *wide { 8 } else { 4 };
                 let mut p = Vec::new();
                 for i in 0..*n as usize * w {
                     p.push((i * 37 + 1) as u8);
                 }
-                for i in 0..*extra {
-                    p.push(0xA0 | i);
-                }
+                p.extend_from_slice(stray);
                 put_len_rec(out, *num, len, 0, &p);
             }
             Rec::Group { num, end } => put_tag(out, *num as u64, if *end { 4 } else { 3 }),
@@ -228,9 +227,9 @@ impl Features {
                         self.packed_cut = true;
                     }
                 }
-                Rec::PackedFix { len, extra, .. } => {
+                Rec::PackedFix { len, stray, .. } => {
                     self.len(len, depth);
-                    if *extra > 0 {
+                    if !stray.is_empty() {
                         self.packed_stray = true;
                     }
                 }
@@ -335,7 +334,7 @@ fn adv_u64() -> impl Strategy<Value = u64> {
 pub fn len_strategy() -> impl Strategy<Value = Len> {
     prop_oneof![
         30 => Just(Len::Exact),
-        2 => (1u32..=300).prop_map(Len::Plus),
+        2 => prop_oneof![3 => 1u32..=8, 1 => 9u32..=300].prop_map(Len::Plus),
         2 => (1u32..=8).prop_map(Len::Minus),
         3 => adv_u64().prop_map(Len::Abs),
         2 => (1u32..=400).prop_map(Len::Neg),
@@ -453,6 +452,28 @@ pub fn schema(k: K) -> &'static [(u32, F)] {
     }
 }
 
+/// Stray bytes after the last whole element of a packed fixed-width field;
+/// most of them are themselves decodable TensorProto fields (dims: 5,
+/// data_type: 1, ...), so that a decoder which stops at the last whole element
+/// goes on to "decode" them.
+pub const STRAY_PATTERNS: [&[u8]; 8] = [
+    &[0x08, 0x05],
+    &[0x10, 0x01],
+    &[0x00],
+    &[0x08, 0x05, 0x08],
+    &[0x70, 0x01, 0x08],
+    &[0x08, 0x05, 0x10, 0x01, 0x08],
+    &[0x08, 0x05, 0x10, 0x01, 0x70, 0x00],
+    &[0x08, 0x01, 0x08, 0x02, 0x08, 0x03, 0x08],
+];
+
+fn stray_bytes() -> impl Strategy<Value = Vec<u8>> {
+    prop_oneof![
+        4 => (0..STRAY_PATTERNS.len()).prop_map(|i| STRAY_PATTERNS[i].to_vec()),
+        1 => proptest::collection::vec(any::<u8>(), 1..8),
+    ]
+}
+
 type RecS = BoxedStrategy<Rec>;
 type FieldsS = BoxedStrategy<Vec<Rec>>;
 
@@ -517,8 +538,8 @@ fn typed_rec(num: u32, f: F, depth: u32, memo: &mut HashMap<(K, u32), FieldsS>) 
         F::RepF32 | F::RepF64 => {
             let wide = f == F::RepF64;
             prop_oneof![
-                3 => (len_strategy(), 0u8..6, prop_oneof![4 => Just(0u8), 1 => 1u8..8])
-                    .prop_map(move |(len, n, extra)| Rec::PackedFix { num, len, wide, n, extra }),
+                3 => (len_strategy(), 0u8..6, prop_oneof![3 => Just(Vec::new()), 2 => stray_bytes()])
+                    .prop_map(move |(len, n, stray)| Rec::PackedFix { num, len, wide, n, stray }),
                 1 => any::<u64>().prop_map(move |v| if wide { Rec::Fixed64 { num, v } } else { Rec::Fixed32 { num, v: v as u32 } }),
             ]
             .boxed()
